@@ -521,3 +521,36 @@ Theorem C16_seq_xml_indent_writer_code : forall (XmlIndent : entries -> str -> s
   fn_MapSeq_XmlIndentWriter XmlIndent st mv w p i rt = wf_result (writer_form (XmlIndent mv p i rt) w).
 Proof. exact seq_xml_indent_writer_code. Qed.
 Print Assumptions C16_seq_xml_indent_writer_code.
+
+(* ---- tie to the CURRENT source of mapToXmlSeqIndent (xmlseq.go:609-905), the encoder behind MapSeq.Xml / XmlIndent /
+   BeautifyXml: go2v re-translates the function on every run (Gen/Pure_gen.v, join mode; the strings.Builder as the bytes
+   written, the pretty struct as five threaded fields, sort.Sort as an insertion sort over the TRANSLATED elemListSeq.Less);
+   GenProofs/PureG17.v (helper H9) proves that in compact mode (doIndent = false) it writes exactly the bytes [semit] of
+   the model items [senc] the theorems above are stated with - for every value whose #text members are scalars (text_ok:
+   the %v text of a map or list is modelled by neither side; the refutation without it is kept) - and returns an error
+   where the model does (for values without uint64 / json.Number, which go to xml.Marshal: outside the model). *)
+From Mxj Require Import Gen.Setters_gen Gen.PureSupport Gen.Pure_gen GenProofs.PureG3 GenProofs.PureG15 GenProofs.PureG17.
+
+Theorem C16_seq_encoder_code_is_model : forall o st ind outd mar mari,
+  senc_view st o ->
+  forall f v sb key i c p d e its, vd v < f -> text_ok o v = true ->
+  senc o v key = Ok its ->
+  fn_mapToXmlSeqIndent (PureG15.run_escapeChars st) ind outd (run_sort st) mar mari f st false sb key v i c p d e
+  = Ret (None, (sb ++ semit its, i, c, p, d, e)).
+Proof. exact senc_code_is_model_translated. Qed.
+Print Assumptions C16_seq_encoder_code_is_model.
+
+Theorem C16_seq_encoder_code_error : forall o st ind outd mar mari,
+  senc_view st o ->
+  forall f v sb key i c p d e e0, vd v < f -> text_ok o v = true -> no_marshal v = true ->
+  senc o v key = Err e0 ->
+  exists sb', fn_mapToXmlSeqIndent (PureG15.run_escapeChars st) ind outd (run_sort st) mar mari f st false sb key v i c p d e
+              = Ret (Some EOther, (sb', i, c, p, d, e)).
+Proof. exact senc_code_error_translated. Qed.
+Print Assumptions C16_seq_encoder_code_error.
+
+Theorem C16_seq_less_code_is_model : forall o st e i j ei ej, seqK o = g_seqK st ->
+  (0 <= i)%Z -> (0 <= j)%Z -> nth_error e (Z.to_nat i) = Some ei -> nth_error e (Z.to_nat j) = Some ej ->
+  fn_elemListSeq_Less st e i j = Ret (Z.leb (seq_num o (keyval_v ei)) (seq_num o (keyval_v ej))).
+Proof. exact less_code_is_model. Qed.
+Print Assumptions C16_seq_less_code_is_model.
